@@ -1090,6 +1090,7 @@ class HttpPayloadParser:
 
                 # toss the CRLF at the end of the chunk
                 if self._chunk == ChunkState.PARSE_CHUNKED_CHUNK_EOF:
+                    unstripped = chunk
                     if self._lax and chunk.startswith(b"\r"):
                         chunk = chunk[1:]
                     if chunk[: len(SEP)] == SEP:
@@ -1102,7 +1103,8 @@ class HttpPayloadParser:
                         set_exception(self.payload, exc)
                         raise exc
                     else:
-                        self._chunk_tail = chunk
+                        # Keep a stripped CR: only one may precede the line ending.
+                        self._chunk_tail = unstripped
                         return PayloadState.PAYLOAD_NEEDS_INPUT, b""
 
                 if self._chunk == ChunkState.PARSE_TRAILERS:
